@@ -663,6 +663,8 @@ def sem_bsr(wide):
 def sem_jsr(mode):
     def f(s):
         if mode == "ern":
+            # JSR @ER7 (target register is the stack pointer being decremented) is left open
+            s.assume = bv.M.AND(s.assume, bv.M.NOT(bv.eq(s.f["n"], bv.const(7, 3))))
             tgt = s.rl(s.f["n"])[:24] + (0,) * 8
             ea = push_pc(s, s.pc_next)
             s.pc = tgt
